@@ -108,6 +108,20 @@ CHECKS = {
                 "assigner. '.'-stranded canonical queries and more than 3 introns/queries are outside the claim.",
         "design": "3 C18",
     },
+    "C13": {
+        "text": "Bounded symbolic verification: a read of k exons with FREE symbolic coordinates (k=1, and k=2 with the first exon anchored "
+                "within delta+1 of an annotated exon in quick; k=2 fully free in thorough) is profiled by the real CombinedProfileConstructor "
+                "(count_exons wiring) against real GeneInfo objects of three catalogue loci (exon skipping/alt ends, contained and "
+                "near-identical exons, antisense multi-gene overlap), counted by the real Exon/IntronCounter, and z3 proves for every "
+                "annotated exon and intron: include <= 1 and only if the read contains the feature within delta, include if it is the sole / "
+                "a closest candidate, never both include and exclude, exclude when the read spans it (well inside) and only for features "
+                "covered by the read, grouped counts only under the read's own group; the feature table rows are compared with a "
+                "recomputation from the annotation.",
+        "note": "Trusted: z3, symx proxies. Annotations are catalogue loci (concrete), delta in {0,4,6,12} (quick: 6); read and annotation "
+                "features longer than 2*delta. For features that are one of several within-delta candidates of a read feature only the "
+                "unambiguous part is asserted (the code's documented closest-match rule). Which reads are processed is C05.",
+        "design": "3 C13",
+    },
 }
 
 NOT_BUILT = "check not built yet (build in progress, see DESIGN.md section 5); no claim is made"
